@@ -4,3 +4,4 @@ import Props.C04
 import Props.C10
 import Props.C14
 import Props.C15
+import Props.C20
